@@ -63,6 +63,8 @@ def lit(f, c, i):
 def c17a(ck, prog):
     R = "C17-a MUSTPASS framing"
     f = prog.coroutine_body(prog.one(r"^ohkami::response::Response::send$").key)
+    # the framing of one message may have been extracted into a helper: read send with such helpers spliced in
+    f = prog.inlined(f, 2, r"^ohkami_lib::num::hexized_bytes$")
     nxt = [c for c in f.calls() if re.search(r"StreamExt::next$|stream::StreamExt::next$", c.decl or c.callee or "")]
     if len(nxt) != 1:
         raise AnchorLost("the `stream.next()` call of the stream arm was not found (%d)" % len(nxt))
